@@ -76,6 +76,16 @@ Theorem C13_stored_matrix_change : forall c rh i b k f, nth_error (facts_of (sta
 Proof. exact stored_matrix_change. Qed.
 Print Assumptions C13_stored_matrix_change.
 
+(* every successful computation the loop got to is stored, whatever the other factors of the block did in the same
+   refresh (an earlier factor of the block may have thrown): the stored matrix is the last successfully computed one *)
+Theorem C13_success_is_stored : forall c b k, b < nb c -> k < nf c b -> forall rh i,
+  refresh_step c rh i = true -> present (i b) = true -> reached b (out_r c rh i) = true ->
+  k < warn_limit b (nf c b) (out_r c rh i) ->
+  rout (fin (i b) k) = Success -> fm_finite (fin (i b) k) = true ->
+  nth_error (facts_of (state_r c (i :: rh)) b) k = Some {| tok := S (length rh); finite := true |}.
+Proof. exact success_is_stored. Qed.
+Print Assumptions C13_success_is_stored.
+
 Theorem C13_stored_roots_finite : forall c rh b k f,
   nth_error (facts_of (state_r c rh) b) k = Some f -> finite f = true.
 Proof. exact stored_roots_finite. Qed.
